@@ -328,6 +328,40 @@ func libFrame() string {
 	return "?"
 }
 
+// errSink collects the error VALUES returned by the library during one C18 task, so that they can
+// be read again when the task ends (an error must keep saying what it said when it was returned).
+var errSink *[]error
+
+func noteErr(err error) {
+	if err == nil {
+		return
+	}
+	if simRand.parallel.Load() {
+		if h := simRand.byGoid[goid()]; h != nil && h.errs != nil {
+			*h.errs = append(*h.errs, err)
+		}
+		return
+	}
+	if errSink != nil {
+		*errSink = append(*errSink, err)
+	}
+}
+
+func errsDigest(errs []error) string {
+	h := uint64(0)
+	for _, e := range errs {
+		// message lines only: embedded stack traces name harness frames, which differ between run modes
+		for _, l := range strings.Split(e.Error(), "\n") {
+			if strings.HasPrefix(l, "\t") || (!strings.Contains(l, " ") && strings.Contains(l, ".")) {
+				continue
+			}
+			h = fnvStr(h, l)
+		}
+		h = fnv1a(h, []byte{0})
+	}
+	return fmt.Sprintf("errors_reread_at_task_end:n=%d:%016x", len(errs), h)
+}
+
 func guard(res *callResult, f func()) {
 	defer func() {
 		if p := recover(); p != nil {
@@ -339,6 +373,7 @@ func guard(res *callResult, f func()) {
 		}
 	}()
 	f()
+	noteErr(res.Err)
 }
 
 // quiesce waits until goroutines started during a library call have finished
